@@ -788,7 +788,11 @@ func (vc *VC) evalIndex(st *State, e *ast.IndexExpr) Term {
 	case *types.Slice, *types.Array:
 		i := vc.eval(st, e.Index)
 		vc.boundsCheck(st, x, i, e)
-		return vc.sliceIndex(st, x, i, sortOfType(vc.typeOf(e)))
+		ev := vc.sliceIndex(st, x, i, sortOfType(vc.typeOf(e)))
+		if isProtoMsgPtr(vc.typeOf(e)) {
+			st.assume(Not(Eq(ev, IntLit(0)))) // protobuf: repeated message fields hold no nil elements
+		}
+		return ev
 	case *types.Pointer: // pointer to array
 		i := vc.eval(st, e.Index)
 		_ = i
